@@ -73,6 +73,15 @@ class FilteringMessageLogger(BaseMessageLogger):
     def __iter__(self) -> typing.Iterator[AbstractMessageLogEntry]:
         return iter(self._filtered_entries)
 
+    def _filter_matches(self, entry: AbstractMessageLogEntry) -> bool:
+        # An entry the filter can't even be evaluated on (a message with a mangled body,
+        # for example) just isn't shown, same as when it was first logged.
+        try:
+            return bool(self.filter.match(entry))
+        except Exception:
+            LOG.exception("Failed to filter queued message")
+            return False
+
     def set_filter(self, filter_str: str):
         self.filter = compile_filter(filter_str)
         self._begin_reset()
@@ -80,9 +89,9 @@ class FilteringMessageLogger(BaseMessageLogger):
         # match the new filter
         self._filtered_entries = [
             m for m in self._filtered_entries if
-            m not in self._raw_entries and self.filter.match(m)
+            m not in self._raw_entries and self._filter_matches(m)
         ]
-        self._filtered_entries.extend((m for m in self._raw_entries if self.filter.match(m)))
+        self._filtered_entries.extend((m for m in self._raw_entries if self._filter_matches(m)))
         self._end_reset()
 
     def set_paused(self, paused: bool):
